@@ -27,7 +27,8 @@ from harness.runner import CaseOut, case_hash
 ID = 'C17'
 LEVEL = 'exploration'
 RULE = ('cases = (backend, history of <= 30 steps (session, op, raw ints) '
-        'over select / examine / close / reconnect / select-other / append '
+        'over select / examine / close / reconnect / select-other / '
+        'examine-other / append '
         '(destination, \\Recent in flag list) / copy-in / store-recent / '
         'fetch / noop for 3 sessions). Non-trivial = at least two sessions '
         'selected the mailbox and a message arrived between two selects, or '
@@ -40,8 +41,8 @@ ASSUMPTIONS = ['sessions learn UIDs of new positions with FETCH n:m (UID '
 BUDGET = {'quick': (150, 16), 'thorough': (4000, 16)}
 
 OPS = ['select', 'select', 'select', 'examine', 'close', 'reconnect',
-       'select-other', 'append', 'append', 'append', 'append-recent',
-       'copy-in', 'store-recent', 'fetch', 'noop']
+       'select-other', 'examine-other', 'append', 'append', 'append',
+       'append-recent', 'copy-in', 'copy-in', 'store-recent', 'fetch', 'noop']
 
 
 def strategy(tier: str) -> Any:
@@ -203,9 +204,12 @@ def run_case(case: dict[str, Any]) -> CaseOut:
             elif op == 'reconnect':
                 c.command(b'LOGOUT')
                 s.connect()
-            elif op == 'select-other':
-                res = c.select(b'Other', learn=False)
-                s.mbx, s.ro, s.inst = b'Other', False, None
+            elif op in ('select-other', 'examine-other'):
+                # (an EXAMINEd source keeps its own \Recent unclaimed: the
+                # copy made from it must still not carry it over)
+                ro = op == 'examine-other'
+                res = c.select(b'Other', examine=ro, learn=False)
+                s.mbx, s.ro, s.inst = b'Other', ro, None
             elif op in ('append', 'append-recent'):
                 vid[0] += 1
                 m = make_message('v%d' % vid[0])
@@ -224,6 +228,8 @@ def run_case(case: dict[str, Any]) -> CaseOut:
                 res = c.command(b'COPY 1 INBOX')
                 if res.ok:
                     arrived(res, where)
+                    if s.ro:
+                        out.label('copy-from-examined-source')
             elif op == 'store-recent':
                 if s.mbx != b'INBOX' or s.ro or not c.shadow.view:
                     continue
